@@ -29,8 +29,9 @@ from cell_type_mapper.taxonomy.taxonomy_tree import TaxonomyTree
 def setup(case, mode):
     set_mode(mode)
     if shimmed(mode):
-        install_np(PFA, ST, AI, SU, CBG, CBGU, UU)
-        install_h5(PFA, PRE, AI)
+        import cell_type_mapper.utils.csc_to_csr as _M
+        install_np(PFA, ST, AI, SU, CBG, CBGU, UU, _M)
+        install_h5(PFA, PRE, AI, _M)
     patch(PFA, 'multiprocessing', mpmodel.multiprocessing)
     patch(PFA, 'print', lambda *a, **k: None)
     patch(AI, 'print', lambda *a, **k: None)
